@@ -253,6 +253,9 @@ def classify(h, r):
     if r.get("compile_error"):
         inconclusive.append("harness does not compile against the current tree (harness out of date?) - see " + r["log"])
         return fails, covers_bad, inconclusive
+    if any(c["status"] == "ERROR" for c in r["checks"]):
+        inconclusive.append("solver ended with Status: ERROR (out of memory / resource limit) - see " + r["log"])
+        return fails, covers_bad, inconclusive
     if r.get("parse_mismatch"):
         inconclusive.append("runner parsed %d checks but kani's summary reports %s (parser out of date) - see %s" % (len(r["checks"]), r.get("summary_total"), r["log"]))
         return fails, covers_bad, inconclusive
